@@ -49,6 +49,10 @@ pub struct CbConfig {
     /// call gets the fallback's response instead of the OpenCircuit error; the machine is the same)
     #[serde(default)]
     pub via_fallback: bool,
+    /// failure threshold in hundredths (overrides thr20): thresholds like 0.28 that are not a
+    /// multiple of 0.05
+    #[serde(default)]
+    pub thr100: Option<u8>,
 }
 
 #[derive(Clone, Debug, Serialize, Deserialize, PartialEq)]
@@ -129,6 +133,7 @@ pub fn config_strategy() -> BoxedStrategy<CbConfig> {
                     classifier_first,
                     listeners,
                     via_fallback,
+                    thr100: None,
                 }
             },
         )
@@ -164,12 +169,55 @@ fn case_strategy(tier: Tier) -> BoxedStrategy<CbCase> {
         Tier::Quick => 60usize,
         Tier::Thorough => 400,
     };
-    (
+    let general = (
         config_strategy(),
         prop::collection::vec(op_strategy(), 0..=max_ops),
     )
-        .prop_map(|(cfg, ops)| CbCase { cfg, ops })
-        .boxed()
+        .prop_map(|(cfg, ops)| CbCase { cfg, ops });
+    // a large count-based window with a threshold in hundredths and mostly successful calls, so
+    // that the failure rate climbs to the threshold one call at a time and meets it exactly
+    let sizes = match tier {
+        Tier::Quick => prop_oneof![3 => Just(25usize), 1 => Just(20usize), 1 => Just(50usize)].boxed(),
+        Tier::Thorough => prop_oneof![2 => Just(25usize), 1 => Just(50usize), 2 => Just(100usize), 1 => 20usize..=100].boxed(),
+    };
+    let big = (
+        sizes,
+        prop_oneof![Just(28u8), Just(14u8), Just(56u8), Just(7u8), Just(55u8), 1u8..=99],
+        prop::collection::vec(prop_oneof![4 => Just(0u8), 1 => Just(2u8)], 20..=120),
+        any::<bool>(),
+        1u8..=9,
+    )
+        .prop_map(|(size, thr100, kinds, via_fallback, extra)| {
+            let mut ops: Vec<Op> = kinds
+                .into_iter()
+                .map(|kind| Op::Call { kind, dur: Dur::Zero })
+                .collect();
+            // enough calls to fill the window and slide it a little
+            while ops.len() < size + extra as usize {
+                ops.push(Op::Call { kind: 0, dur: Dur::Zero });
+            }
+            CbCase {
+                cfg: CbConfig {
+                    time_based: false,
+                    size,
+                    window_ms: 50,
+                    thr20: 10,
+                    min: None,
+                    permitted: 2,
+                    wait_ms: 20,
+                    slow: None,
+                    custom_classifier: false,
+                    idle_slow_rate10: None,
+                    wait_huge: 0,
+                    classifier_first: false,
+                    listeners: false,
+                    via_fallback,
+                    thr100: Some(thr100),
+                },
+                ops,
+            }
+        });
+    prop_oneof![60 => general, 1 => big].boxed()
 }
 
 // ------------------------------------------------------------------ reference model
@@ -204,6 +252,9 @@ pub struct ModelCfg {
     pub time_based: bool,
     pub size: usize,
     pub window2: u64,
+    /// failure threshold as a fraction num/den
+    pub thr_num: u64,
+    pub thr_den: u64,
     pub thr20: u64,
     pub min: usize,
     pub permitted: usize,
@@ -217,6 +268,8 @@ impl ModelCfg {
             time_based: c.time_based,
             size: c.size,
             window2: 2 * c.window_ms + 1,
+            thr_num: c.thr100.map_or(c.thr20 as u64, |h| h as u64),
+            thr_den: if c.thr100.is_some() { 100 } else { 20 },
             thr20: c.thr20 as u64,
             min: c.min.unwrap_or(c.size),
             permitted: c.permitted,
@@ -315,7 +368,7 @@ impl World {
                     }
                     let f = win.iter().filter(|r| r.fail).count() as u64;
                     let s = win.iter().filter(|r| r.slow).count() as u64;
-                    let by_fail = 20 * f >= cfg.thr20 * n;
+                    let by_fail = cfg.thr_den * f >= cfg.thr_num * n;
                     let by_slow = cfg.slow2.map_or(false, |(_, r10)| 10 * s >= r10 * n);
                     if by_fail || by_slow {
                         self.go(St::Open, now2);
@@ -465,7 +518,7 @@ pub fn apply_settings<C>(
 ) -> tower_resilience_circuitbreaker::CircuitBreakerConfigBuilder<C> {
     let half = Duration::from_micros(500);
     let mut b = b
-        .failure_rate_threshold(c.thr20 as f64 / 20.0)
+        .failure_rate_threshold(c.thr100.map_or(c.thr20 as f64 / 20.0, |h| h as f64 / 100.0))
         .sliding_window_size(c.size)
         .permitted_calls_in_half_open(c.permitted)
         .wait_duration_in_open(wait_duration(c))
@@ -797,6 +850,9 @@ pub fn report_of(case: &CbCase) -> Report {
     }
     if case.cfg.via_fallback {
         r.class("service_with_fallback");
+    }
+    if case.cfg.thr100.is_some() {
+        r.class("window_of_20_to_100_calls_threshold_in_hundredths");
     }
     if case.cfg.slow.is_some() {
         r.class("slow_detection_on");
